@@ -605,6 +605,8 @@ def run(ctx):
     rule_handout(ctx)
     rule_api_handout(ctx)
     rule_exhausted_removed(ctx)
+    from . import c13
+    c13.rule_revalidate(ctx)       # a seek()/reset issued while a lookup is awaited wins over the looked-up offset
     rule_position_writers(ctx)
     rule_unpack(ctx)
     rule_seek_drop(ctx)
